@@ -323,10 +323,21 @@ PROPS["C20"] = {
             "must reproduce. Counts — " + cli_counts("quick") + "; " + cli_counts("thorough") + " (`evaluations` below is the "
             "measured total of the run, `tier` says which line applies). non-trivial = the real CLI produced a registry/container; "
             "distinct = distinct (stream, fixture, variant or protocol type)",
-    "level_text": "Proof (formatter stage, for ANY edge relation, not only the fixtures): variant_indices, perm_invariant_partial, "
-                  "renumber_invariant_fmt, closed_partial, with the full statements kept as `def … : Prop`; the reachability filter "
-                  "(ascent rules of filter.rs) and the crate loading loop are modelled executably (M.Codegen.Crate.edges, load) and "
-                  "checked against the real CLI on every run, their invariance is checked by the oracle on the real code, not proved.",
+    "level_text": "Proof, all unbounded (any crate descriptions, any edge relation, any renumbering, any order). Whole pipeline of "
+                  "the model (filter rules, crate loading loop, formatter): renumber_invariant (FULL: every renumbering injective "
+                  "per crate leaves `registry` exactly unchanged), perm_invariant_pipeline (items / summaries / external crates / "
+                  "available crates listed in any other order: both runs fail to load, both panic, or the same registry; side "
+                  "conditions cratesWF = ids unique per crate + distinct crate names, and no two containers competing for one "
+                  "name), crate_order_invariant (every completed run of the loading loop, whichever pending crate it picks at each "
+                  "step, loads the same crates and yields the same registry; load_is_a_run). Formatter stage for an ARBITRARY edge "
+                  "relation: variant_indices + variant_declaration_order (keys 0..n-1 in declaration order of the non-skipped "
+                  "variants; side condition variantsWF), perm_invariant_partial / perm_invariant_registry, renumber_invariant_fmt, "
+                  "closed_partial (side condition resolvable), C20_structure_sound (the oracle's structural clauses accept the "
+                  "model's registry). Full statements without side conditions are kept as `def … : Prop`; perm_invariant_full and "
+                  "closed_full are FALSE for the formatter as written (perm_invariant_full_false: two crates defining one type "
+                  "name; closed_full_false: `Request` refers to `Effect` unconditionally) — every side condition is decidable and "
+                  "evaluated by the driver on every registry case (an unmet one is reported as `hypothesis-unmet:<name>`). The "
+                  "agreement with serde-reflection on the protocol types is checked, not proved.",
     "level_note": "Trusted: Lean kernel + 3 standard axioms; the hand model M.Codegen of mod.rs/filter.rs/formatter.rs/node.rs/item.rs/"
                   "serde/case.rs (tied to the working tree on every run: the harness compiles /repo/crux_cli/src/codegen by path and "
                   "diffs its registry with the model's for every variant); ascent's evaluation as a least fixpoint whose facts "
